@@ -1,4 +1,4 @@
 SPECIFICATION Spec
-CONSTANTS MaxSize = 4  MaxSmall = 2  Emit = FALSE
+CONSTANTS MaxSize = 4  MaxSmall = 2  AgedMax = 3  Emit = FALSE
 INVARIANTS Consistent
 CHECK_DEADLOCK FALSE
